@@ -54,6 +54,12 @@ def path_facts(d, p, b, ack_sites):
     for s, c in conds:
         if 'types::QoS as std::cmp::PartialEq>::eq' in s:
             qos2 = (c != ('eq', 0))
+        elif s.startswith('discr(') and re.search(r'qos', s, re.I) and HANDLER_POLL not in s:
+            # `matches!(qos, QoS::ExactlyOnce)` / `match qos {..}`: ExactlyOnce has discriminant 2
+            if c == ('eq', 2):
+                qos2 = True
+            elif c[0] == 'eq' or (c[0] == 'ne' and 2 in c[1]):
+                qos2 = False
     acks = [kind for (bi, kind) in ack_sites if bi in p.blocks]
     ret = None
     if p.ret is not None and p.ret[0] == 'agg':
@@ -80,6 +86,16 @@ def publish_fn_rules(F, R, d):
     # per-path rules
     ack_sites = [(bi, 'PublishAck') for bi, j, s in agg_sites(b, r'^%s$' % re.escape(d.packet), 'PublishAck')] + \
                 [(bi, 'PublishReceived') for bi, j, s in agg_sites(b, r'^%s$' % re.escape(d.packet), 'PublishReceived')]
+    # an acknowledgement built inside a closure of publish_fn (`packet_id.map(|id| ..)`) counts where the closure is created
+    for c_ in F.descendants(b):
+        for kind_ in ('PublishAck', 'PublishReceived'):
+            if agg_sites(c_, r'^%s$' % re.escape(d.packet), kind_):
+                root_ = c_
+                while root_.d.get('parent') and root_.d.get('parent') != b.path and root_.d.get('parent') in F.bodies:
+                    root_ = F.bodies[root_.d['parent']]
+                for bi, j, s in b.assigns():
+                    if s['rv']['k'] == 'agg' and s['rv'].get('def') == root_.path:
+                        ack_sites.append((bi, kind_ + ' (built in a closure)'))
     R.floor('C03.ack-after-handler', '%s ack constructions in publish_fn' % d.name, len(ack_sites), 2 if d.role == 'server' else 1)
     se = SymEx(b, F, call_model=nonzero_model, loop_visits=1, max_paths=5000)
     paths = [p for p in se.run() if p.end[0] == 'return']
@@ -96,7 +112,9 @@ def publish_fn_rules(F, R, d):
             ok = f['outcome'] == 'ok' or (d.name == 'v5-server' and f['outcome'] == 'err' and f['try_ack'] == 'ok')
             R.ob('C03.ack-after-handler', '%s|publish_fn|%s|handler=%s,try_ack=%s' % (d.name, kind, f['outcome'], f['try_ack']), ok,
                  'an acknowledgement (%s) is built on a path where the handler future has not completed successfully (outcome %s, try_ack %s)' % (kind, f['outcome'], f['try_ack']))
-            if kind == 'PublishReceived':
+            if kind.endswith('(built in a closure)'):
+                R.undecided('C03.ack-kind', '%s|publish_fn|%s' % (d.name, kind), 'the acknowledgement kind is chosen inside a closure handed to a combinator; the QoS it is chosen under is not visible on the path')
+            elif kind == 'PublishReceived':
                 R.ob('C03.ack-kind', '%s|publish_fn|PublishReceived|qos2=%s' % (d.name, f['qos2']), f['qos2'] is True,
                      'PUBREC is produced on a path where the message is not known to be QoS 2')
             else:
@@ -188,8 +206,8 @@ def drop_guard(F, R):
     guaranteed): the silent-drop guard compares with strictly-greater, in both server dispatchers."""
     n = 0
     for ver in ('v3', 'v5'):
-        cl = [b for p_, b in F.bodies.items() if re.search(r'^<%s::dispatcher::Dispatcher<T, C, E> as ntex_service::Service<%s::codec::Decoded>>::call::\{closure#0\}::\{closure#\d+\}$' % (ver, ver), p_)
-              and any('PartialOrd' in (callee_name(t) or '') for _, t in b.calls()) and b.argc == 2 and b.local_ty(2) == 'types::QoS']
+        cl = [b for b in F.find(r'^<%s::dispatcher::Dispatcher<T, C, E> as ntex_service::Service<%s::codec::Decoded>>::call::\{closure#0\}::\{closure#\d+\}$' % (ver, ver))
+              if any('PartialOrd' in (callee_name(t) or '') for _, t in b.calls()) and b.argc == 2 and b.local_ty(2) == 'types::QoS']
         if len(cl) != 1:
             R.ob('C03.once', '%s-server|publish-after-disconnect|guard-closure' % ver, False, 'found %d candidate closures' % len(cl))
             continue
